@@ -44,6 +44,10 @@ func (a *API) Subscribe(serv pubsub_api.SRPCPubSubService_SubscribeStream) error
 			if err != nil {
 				return err
 			}
+			if pkey == nil {
+				// ParsePrivKeyPem returns nil, nil if there is no pem block.
+				return errors.New("priv_key_pem: no pem private key found")
+			}
 			handlePeer, err = peer.NewPeer(pkey)
 			if err != nil {
 				return err
